@@ -338,7 +338,7 @@ Lemma ubranch_head_not_label done jl c rest l : ubranch_head done jl c rest <> S
 Proof. unfold ubranch_head. discriminate. Qed.
 
 Lemma ucompile_labels : forall s, ULC s /\ ULR s.
-Proof.
+Proof using lab labc lab_inj labc_inj labc_fresh.
   assert (Htriv : forall s, (forall ctx done jl n, ucrest ctx done jl n s = ([], n)) -> ULR s).
   { intros s H ctx done jl n. rewrite H. cbn. repeat split; [lia|constructor|intros _; constructor]. }
   induction s as [ |a [IHa _] b [IHb _]|x e|e|e| | |c a [IHa _] rest [IHr IHrr]|b [IHb _]|c b [IHb _]|vals len idx x e body [IHb _]];
@@ -438,8 +438,9 @@ Proof.
         -- destruct (uhas_cont body); cbn in Hin; [destruct Hin as [E|[]]; symmetry in E; exact (labc_fresh _ _ _ E)|contradiction].
         -- apply lab_inj in E. destruct E as [E _]. discriminate.
       * apply NoDup_app_intro; [exact Hnd| |].
-        -- destruct (uhas_cont body); cbn [flat_map app]; repeat constructor; cbn; try tauto.
-           intros [E|[]]. exact (labc_fresh _ _ _ E).
+        -- destruct (uhas_cont body); cbn [flat_map app].
+           ++ constructor; [intros [E|[]]; exact (labc_fresh _ _ _ E)|]. constructor; [intros []|constructor].
+           ++ constructor; [intros []|constructor].
         -- intros y H1 H2. apply in_app_or in H2. destruct H2 as [H2|[E|[]]].
            ++ destruct (uhas_cont body); cbn in H2; [destruct H2 as [E|[]]; subst y; exact (Hcc H1)|contradiction].
            ++ subst y. exact (Hcb _ H1).
@@ -955,6 +956,178 @@ Proof.
   - contradiction.
   - contradiction.
   - exists o, wm'. split; [reflexivity|split; [exact Hw'|exact Hp]].
+Qed.
+
+
+(* ---------------------------------------------------------------- an executable interpreter for the structured reading *)
+Fixpoint uexec (fuel : nat) (s : unistmt) (st : sstate) {struct fuel} : option (sout * sstate) :=
+  match fuel with
+  | O => None
+  | S f =>
+    let '(loc, w) := st in
+    let ev e w0 := match eval f e loc false um w0 with (OFuel, _) => None | r => Some r end in
+    match s with
+    | NSkip => Some (SNormal, st)
+    | NSeq a b =>
+      match uexec f a st with
+      | Some (SNormal, st1) => uexec f b st1
+      | r => r
+      end
+    | NAssign x e =>
+      match ev e w with
+      | Some (OVal v, w1) => Some (SNormal, assign x v loc w1)
+      | Some (o, w1) => Some (SStop o, (loc, w1))
+      | None => None
+      end
+    | NExpr e =>
+      match ev e w with
+      | Some (OVal v, w1) => Some (SNormal, (loc, w1))
+      | Some (o, w1) => Some (SStop o, (loc, w1))
+      | None => None
+      end
+    | NReturn (Some e) => match ev e w with Some (o, w1) => Some (SStop o, (loc, w1)) | None => None end
+    | NReturn None => Some (SStop (OVal VNull), st)
+    | NBreak => Some (SBreak, st)
+    | NContinue => Some (SContinue, st)
+    | NIf c a rest =>
+      match ev c w with
+      | Some (OVal v, w1) => if truthy w1 v then uexec f a (loc, w1) else uexec f rest (loc, w1)
+      | Some (o, w1) => Some (SStop o, (loc, w1))
+      | None => None
+      end
+    | NElse b => uexec f b st
+    | NWhile c b =>
+      match ev c w with
+      | Some (OVal v, w1) =>
+        if truthy w1 v then
+          match uexec f b (loc, w1) with
+          | Some (SNormal, st2) | Some (SContinue, st2) => uexec f s st2
+          | Some (SBreak, st2) => Some (SNormal, st2)
+          | Some (SStop o, st2) => Some (SStop o, st2)
+          | None => None
+          end
+        else Some (SNormal, (loc, w1))
+      | Some (o, w1) => Some (SStop o, (loc, w1))
+      | None => None
+      end
+    | NFor vals len idx x e body =>
+      match eval f e loc false um w with
+      | (OFuel, _) => None
+      | (OVal (VArr l), w1) =>
+        let st1 := assign' vals (VArr l) (loc, w1) in
+        if is_libb ARRLEN st1 then
+          match nth_error (w_arrs w1) l with
+          | Some [] => Some (SNormal, assign' len (int_v 0) st1)
+          | Some elems => uloop f vals len idx x body l (length elems) 0 (assign' idx (int_v 0) (assign' len (int_v (length elems)) st1))
+          | None => None
+          end
+        else None
+      | (OVal _, _) => None                  (* a non-array: no rule in UExec *)
+      | (o, w1) => Some (SStop o, (loc, w1))
+      end
+    end
+  end
+with uloop (fuel : nat) (vals len idx x : str) (body : unistmt) (l m i : nat) (st : sstate) {struct fuel} : option (sout * sstate) :=
+  match fuel with
+  | O => None
+  | S k =>
+    if is_libb ARRGET st then
+      match nth_error (w_arrs (snd st)) l with
+      | Some elems =>
+        match nth_error elems i with
+        | Some v =>
+          match uexec k body (assign' x v st) with
+          | Some (SStop out, st_b) => Some (SStop out, st_b)
+          | Some (SBreak, st_b) => Some (SNormal, st_b)
+          | Some (_, st_b) =>
+            if inv3b vals len idx l m i st_b then
+              if S i <? m then uloop k vals len idx x body l m (S i) (assign' idx (int_v (S i)) st_b)
+              else Some (SNormal, assign' idx (int_v (S i)) st_b)
+            else None
+          | None => None
+          end
+        | None => None
+        end
+      | None => None
+      end
+    else None
+  end.
+
+Theorem uexec_sound_both : forall fuel,
+  (forall s st o st', uexec fuel s st = Some (o, st') -> UExec s st o st') /\
+  (forall vals len idx x body l m i st o st', uloop fuel vals len idx x body l m i st = Some (o, st') -> ULoop vals len idx x body l m i st o st').
+Proof.
+  induction fuel as [|f [IH IHl]]; [split; intros; discriminate|]. split.
+  - intros s [loc w] o st' H. cbn [uexec] in H.
+    destruct s as [ |a b|x e|e|[e|]| | |c a rest|b|c b|vals len idx x e body].
+    + injection H as <- <-. constructor.
+    + destruct (uexec f a (loc, w)) as [[oa st1]|] eqn:Ea; [|discriminate].
+      destruct oa; try (injection H as <- <-; apply X_SeqA; [apply IH; exact Ea|discriminate]).
+      eapply X_SeqN; [apply IH; exact Ea|apply IH; exact H].
+    + destruct (match eval f e loc false um w with (OFuel, _) => None | r => Some r end) as [[oe w1]|] eqn:Ee; [|discriminate].
+      apply ev_sound in Ee. destruct oe; injection H as <- <-; try (apply X_AssignStop; [exact Ee|reflexivity]). apply X_Assign. exact Ee.
+    + destruct (match eval f e loc false um w with (OFuel, _) => None | r => Some r end) as [[oe w1]|] eqn:Ee; [|discriminate].
+      apply ev_sound in Ee. destruct oe; injection H as <- <-; try (apply X_ExprStop; [exact Ee|reflexivity]). eapply X_Expr. exact Ee.
+    + destruct (match eval f e loc false um w with (OFuel, _) => None | r => Some r end) as [[oe w1]|] eqn:Ee; [|discriminate].
+      apply ev_sound in Ee. injection H as <- <-. apply X_Return. exact Ee.
+    + injection H as <- <-. constructor.
+    + injection H as <- <-. constructor.
+    + injection H as <- <-. constructor.
+    + destruct (match eval f c loc false um w with (OFuel, _) => None | r => Some r end) as [[oe w1]|] eqn:Ee; [|discriminate].
+      apply ev_sound in Ee. destruct oe; try (injection H as <- <-; apply X_IfStop; [exact Ee|reflexivity]).
+      destruct (truthy w1 v) eqn:Et; [eapply X_IfT|eapply X_IfF]; eauto.
+    + apply X_Else. apply IH. exact H.
+    + destruct (match eval f c loc false um w with (OFuel, _) => None | r => Some r end) as [[oe w1]|] eqn:Ee; [|discriminate].
+      apply ev_sound in Ee. destruct oe; try (injection H as <- <-; apply X_WhileStop; [exact Ee|reflexivity]).
+      destruct (truthy w1 v) eqn:Et; [|injection H as <- <-; eapply X_WhileF; eauto].
+      destruct (uexec f b (loc, w1)) as [[ob st2]|] eqn:Eb; [|discriminate]. apply IH in Eb.
+      destruct ob.
+      * eapply X_WhileT; [exact Ee|exact Et|exact Eb|left; reflexivity|apply IH; exact H].
+      * injection H as <- <-. eapply X_WhileB; eauto.
+      * eapply X_WhileT; [exact Ee|exact Et|exact Eb|right; reflexivity|apply IH; exact H].
+      * injection H as <- <-. eapply X_WhileS; eauto.
+    + destruct (eval f e loc false um w) as [oe w1] eqn:Ee.
+      assert (HE : oe <> OFuel -> Ev e loc w oe w1) by (intros Hn; exists f; split; [exact Ee|exact Hn]).
+      destruct oe as [v| | | | |]; try discriminate;
+        try (injection H as <- <-; apply X_ForStop; [apply HE; discriminate|reflexivity]).
+      destruct v; try discriminate.
+      destruct (is_libb ARRLEN (assign' vals (VArr l) (loc, w1))) eqn:Efn; [|discriminate]. apply is_libb_sound in Efn.
+      destruct (nth_error (w_arrs w1) l) as [elems|] eqn:Ea; [|discriminate].
+      destruct elems as [|e0 et].
+      * injection H as <- <-. apply X_ForEmpty; [apply HE; discriminate|exact Ea|exact Efn].
+      * apply IHl in H. eapply X_ForLoop; [apply HE; discriminate|exact Ea|discriminate|exact Efn|exact H].
+  - intros vals len idx x body l m i st o st' H. cbn [uloop] in H.
+    destruct (is_libb ARRGET st) eqn:Efn; [|discriminate]. apply is_libb_sound in Efn.
+    destruct (nth_error (w_arrs (snd st)) l) as [elems|] eqn:Ea; [|discriminate].
+    destruct (nth_error elems i) as [v|] eqn:Ev'; [|discriminate].
+    destruct (uexec f body (assign' x v st)) as [[ob st_b]|] eqn:Eb; [|discriminate].
+    apply IH in Eb.
+    assert (Hit : IterPre l i st v) by (exists elems; auto).
+    destruct ob.
+    + destruct (inv3b vals len idx l m i st_b) eqn:EI; [|discriminate]. apply inv3b_sound in EI.
+      destruct (S i <? m) eqn:El.
+      * apply Nat.ltb_lt in El. eapply XL_next; [exact Hit|exact Eb|left; reflexivity|exact EI|exact El|apply IHl; exact H].
+      * apply Nat.ltb_ge in El. injection H as <- <-. eapply XL_last; [exact Hit|exact Eb|left; reflexivity|exact EI|exact El].
+    + injection H as <- <-. eapply XL_break; [exact Hit|exact Eb].
+    + destruct (inv3b vals len idx l m i st_b) eqn:EI; [|discriminate]. apply inv3b_sound in EI.
+      destruct (S i <? m) eqn:El.
+      * apply Nat.ltb_lt in El. eapply XL_next; [exact Hit|exact Eb|right; reflexivity|exact EI|exact El|apply IHl; exact H].
+      * apply Nat.ltb_ge in El. injection H as <- <-. eapply XL_last; [exact Hit|exact Eb|right; reflexivity|exact EI|exact El].
+    + injection H as <- <-. eapply XL_stop; [exact Hit|exact Eb].
+Qed.
+
+Theorem uexec_sound : forall fuel s st o st', uexec fuel s st = Some (o, st') -> UExec s st o st'.
+Proof. intros fuel. exact (proj1 (uexec_sound_both fuel)). Qed.
+
+
+(* the reading of Proofs/C01.v is the restriction of UExec to the for-free trees *)
+Lemma SExec_UExec s st o st' : SExec cfg lib url_rel lint_lines um s st o st' -> UExec (of_sstmt s) st o st'.
+Proof.
+  induction 1; cbn [of_sstmt];
+    [apply X_Skip|eapply X_SeqN; eauto|eapply X_SeqA; eauto|eapply X_Assign; eauto|eapply X_AssignStop; eauto|eapply X_Expr; eauto
+    |eapply X_ExprStop; eauto|eapply X_Return; eauto|apply X_ReturnNone|apply X_Break|apply X_Continue|eapply X_IfT; eauto|eapply X_IfF; eauto
+    |eapply X_IfStop; eauto|eapply X_Else; eauto|eapply X_WhileF; eauto|eapply X_WhileStop; eauto|eapply X_WhileT; eauto|eapply X_WhileB; eauto
+    |eapply X_WhileS; eauto].
 Qed.
 
 End Uni.
